@@ -1388,8 +1388,10 @@ class SyncedStackedTransforms(StackedTransforms):
         except ImportError:  # pragma: no cover
             pass
 
-        fn.__code__ = code
+        # The new code refers to the function through this global: set it
+        # first, another thread may call fn as soon as the code is swapped
+        fn.__globals__[token] = fn
         fn.__ptera_info__ = info
         fn.__ptera_token__ = token
         fn.__ptera_discard__ = False
-        fn.__globals__[fn.__ptera_token__] = fn
+        fn.__code__ = code
